@@ -224,7 +224,7 @@ func c04R2(a *A, r *Roles) {
 		key := fmt.Sprintf("pos-advance@commit[field=%s#%d]", f, n)
 		ok := false
 		for _, e := range edges {
-			if edgeDominated(e[0].(*ssa.BasicBlock), e[1].(int), s.block()) {
+			if edgeHolds(e[0].(*ssa.BasicBlock), e[1].(int), s.block()) {
 				ok = true
 			}
 		}
@@ -239,7 +239,7 @@ func c04R2(a *A, r *Roles) {
 	for _, ret := range returnsOf(r.Commit) {
 		after := false
 		for _, e := range edges {
-			if edgeDominated(e[0].(*ssa.BasicBlock), e[1].(int), ret.Block()) {
+			if edgeHolds(e[0].(*ssa.BasicBlock), e[1].(int), ret.Block()) {
 				after = true
 			}
 		}
